@@ -27,10 +27,43 @@ Definition upt (p : upoint) : s2_Point := proj1_sig p.
 Definition u_peq (a b : upoint) : bool := s2_Point_eqb (upt a) (upt b).
 Definition u_sign (a b c : upoint) : Z := robust_sign (upt a) (upt b) (upt c).
 Definition u_triage (a b c : upoint) : Z := Gen.S2Pred.s2_triageSign (upt a) (upt b) (upt c).
-Definition u_tangent (a b c d : upoint) : bool := x_tangent (upt a) (upt b) (upt c) (upt d).
+(** the float tangent test exactly as edge_crosser.go computes it *)
+Definition u_tangent_raw (a b c d : upoint) : bool := x_tangent (upt a) (upt b) (upt c) (upt d).
 
-(** H-TANGENT of DESIGN.md section 4, for the float tangent test of edge_crosser.go *)
+(** b == -a componentwise (Go ==): the fixed edge has EXACTLY antipodal endpoints. Such an "edge"
+    is not a geodesic edge (S2 forbids 180-degree edges): PointCross(a, -a) is the zero vector,
+    NewEdgeCrosser falls back to an arbitrary normal Ortho(a), and the tangent early exit is then
+    unrelated to the exact criterion ([H_TANGENT_unguarded_refuted] below). *)
+Definition s2_neg (p : s2_Point) : s2_Point :=
+  mk_s2_Point (mk_r3_Vector (PrimFloat.opp (r3_Vector_X (s2_Point_Vector p)))
+                            (PrimFloat.opp (r3_Vector_Y (s2_Point_Vector p)))
+                            (PrimFloat.opp (r3_Vector_Z (s2_Point_Vector p)))).
+Definition s2_antipodal (a b : s2_Point) : bool := s2_Point_eqb b (s2_neg a).
+Definition u_antipodal (a b : upoint) : bool := s2_antipodal (upt a) (upt b).
+
+(** the tangent test on the property's domain: geodesic fixed edges. On every edge that is not
+    exactly antipodal it IS the code's test ([u_tangent_on_geodesic]); the crosser theorems
+    below are stated for [u_tangent_raw] with the guard [u_antipodal a b = false]. *)
+Definition u_tangent (a b c d : upoint) : bool := negb (u_antipodal a b) && u_tangent_raw a b c d.
+
+Lemma u_tangent_on_geodesic a b : u_antipodal a b = false ->
+  forall c d, u_tangent_raw a b c d = u_tangent a b c d.
+Proof. intros H c d. unfold u_tangent. now rewrite H. Qed.
+
+(** H-TANGENT of DESIGN.md section 4, for the float tangent test of edge_crosser.go:
+    for a fixed edge AB that is not exactly antipodal, when the early exit fires no vertex is
+    shared and the four exact orientations do not agree. *)
 Definition H_TANGENT : Prop := law_tangent_sound upoint u_peq u_sign u_tangent.
+
+Lemma H_TANGENT_guarded_form : H_TANGENT <->
+  (forall a b c d, u_antipodal a b = false -> u_tangent_raw a b c d = true ->
+     shared upoint u_peq a b c d = false /\ four_agree upoint u_sign a b c d = false).
+Proof.
+  unfold H_TANGENT, law_tangent_sound, u_tangent. split.
+  - intros H a b c d G T. apply H. now rewrite G, T.
+  - intros H a b c d T. apply andb_true_iff in T. destruct T as [G T].
+    apply negb_true_iff in G. now apply H.
+Qed.
 
 Lemma upt_unit (p : upoint) : unit_pt (upt p). Proof. exact (proj2_sig p). Qed.
 Lemma upt_finite (p : upoint) : finite (upt p). Proof. exact (proj1 (proj2_sig p)). Qed.
@@ -93,30 +126,41 @@ Theorem crossing_symmetric_real_l : forall a b c d,
   crossing_spec upoint u_peq u_sign c d a b = crossing_spec upoint u_peq u_sign a b c d.
 Proof. exact (crossing_spec_sym upoint u_peq u_sign u_peq_sym u_sign_rotate u_sign_swap). Qed.
 
-Theorem crossing_sign_exact_real_l : forall a b c d,
-  crossing_sign upoint u_peq u_sign u_triage u_tangent a b c d =
+Theorem crossing_sign_exact_real_l : forall a b c d, u_antipodal a b = false ->
+  crossing_sign upoint u_peq u_sign u_triage u_tangent_raw a b c d =
   crossing_spec upoint u_peq u_sign a b c d.
 Proof.
+  intros a b c d G.
+  rewrite (crossing_sign_tangent_ext upoint u_peq u_sign u_triage u_tangent_raw u_tangent a b
+             (u_tangent_on_geodesic a b G)).
   exact (stateless_eq upoint u_peq u_sign u_triage u_tangent u_peq_sym u_sign_rotate u_sign_swap
-           u_sign_zero_iff u_triage_sound HT).
+           u_sign_zero_iff u_triage_sound HT a b c d).
 Qed.
 
-Theorem crosser_refines_spec_real_l : forall a b c0 ops,
+Theorem crosser_refines_spec_real_l : forall a b c0 ops, u_antipodal a b = false ->
   map (fun x => (st_c upoint (fst x), snd x))
-      (run upoint u_peq u_sign u_triage u_tangent refdir a b (init upoint c0) ops) =
+      (run upoint u_peq u_sign u_triage u_tangent_raw refdir a b (init upoint c0) ops) =
   spec_run upoint u_peq u_sign refdir a b c0 ops.
 Proof.
+  intros a b c0 ops G.
+  rewrite (run_tangent_ext upoint u_peq u_sign u_triage u_tangent_raw u_tangent refdir a b
+             (u_tangent_on_geodesic a b G)).
   exact (crosser_refines upoint u_peq u_sign u_triage u_tangent refdir u_peq_sym u_sign_rotate
-           u_sign_swap u_sign_zero_iff u_triage_sound HT).
+           u_sign_swap u_sign_zero_iff u_triage_sound HT a b c0 ops).
 Qed.
 
-Theorem crosser_equals_stateless_real_l : forall a b c0 ops,
+Theorem crosser_equals_stateless_real_l : forall a b c0 ops, u_antipodal a b = false ->
   map (fun x => (st_c upoint (fst x), snd x))
-      (run upoint u_peq u_sign u_triage u_tangent refdir a b (init upoint c0) ops) =
-  stateless_run upoint u_peq u_sign u_triage u_tangent refdir a b c0 ops.
+      (run upoint u_peq u_sign u_triage u_tangent_raw refdir a b (init upoint c0) ops) =
+  stateless_run upoint u_peq u_sign u_triage u_tangent_raw refdir a b c0 ops.
 Proof.
+  intros a b c0 ops G.
+  rewrite (run_tangent_ext upoint u_peq u_sign u_triage u_tangent_raw u_tangent refdir a b
+             (u_tangent_on_geodesic a b G)).
+  rewrite (stateless_run_tangent_ext upoint u_peq u_sign u_triage u_tangent_raw u_tangent refdir a b
+             (u_tangent_on_geodesic a b G)).
   exact (crosser_eq_stateless upoint u_peq u_sign u_triage u_tangent refdir u_peq_sym u_sign_rotate
-           u_sign_swap u_sign_zero_iff u_triage_sound HT).
+           u_sign_swap u_sign_zero_iff u_triage_sound HT a b c0 ops).
 Qed.
 
 (** the vertex rule: exactly one of two edges meeting at one vertex counts as crossing *)
@@ -143,3 +187,31 @@ Proof.
   exists (mk_s2_Point (mk_r3_Vector 1%float 0%float 0%float)).
   apply isunit_unit_pt. vm_compute. reflexivity.
 Qed.
+
+(** * The guard is needed: the unguarded statement is false.
+    A = (0.2518, -0.7130, 0.6544), B = -A exactly, C = (0, 6.1e-17, 1), D = (-0.6343, 0.7209, 0.2791):
+    PointCross(A, -A) = 0, so NewEdgeCrosser takes the arbitrary normal Ortho(A); the tangent exit
+    fires (CrossingSign = DoNotCross) although the four exact perturbed orientations agree.
+    Found by the C03 observer (seed 3) on the unchanged tree; an exactly antipodal pair is not a
+    geodesic edge, so this is outside the property's domain, not a defect. *)
+Definition t_a : s2_Point := mk_s2_Point (mk_r3_Vector (0x1.01cffc3d38246p-2) (-0x1.6d102b1720240p-1) (0x1.4f0bdf9903218p-1)).
+Definition t_b : s2_Point := s2_neg t_a.
+Definition t_c : s2_Point := mk_s2_Point (mk_r3_Vector 0 (0x1.1a62633145c00p-54) 1).
+Definition t_d : s2_Point := mk_s2_Point (mk_r3_Vector (-0x1.44caae4eca5e9p-1) (0x1.711b60ba5f296p-1) (0x1.1dc2089338037p-2)).
+Lemma t_unit p : r3_Vector_IsUnit (s2_Point_Vector p) = true -> unit_pt p.
+Proof. apply isunit_unit_pt. Qed.
+Definition T_a : upoint := exist _ t_a (t_unit t_a eq_refl).
+Definition T_b : upoint := exist _ t_b (t_unit t_b eq_refl).
+Definition T_c : upoint := exist _ t_c (t_unit t_c eq_refl).
+Definition T_d : upoint := exist _ t_d (t_unit t_d eq_refl).
+
+Theorem H_TANGENT_unguarded_refuted : ~ law_tangent_sound upoint u_peq u_sign u_tangent_raw.
+Proof.
+  intro L. assert (K := L T_a T_b T_c T_d).
+  unfold u_tangent_raw, shared, four_agree, u_peq, u_sign, upt, T_a, T_b, T_c, T_d, proj1_sig in K.
+  assert (E : x_tangent t_a t_b t_c t_d = true) by (vm_compute; reflexivity).
+  destruct (K E) as [_ F]. vm_compute in F. discriminate.
+Qed.
+(** and the witness is exactly what the guard excludes *)
+Example witness_is_antipodal : u_antipodal T_a T_b = true.
+Proof. vm_compute. reflexivity. Qed.
